@@ -53,10 +53,21 @@ func VerifH_C08_BlockstoreRaces() {
 	opA := vChoose("opA", 7)
 	opB := vChoose("opB", 7)
 	vAssume(opA <= opB)
-	vConcurrently(
-		func() { vRWOp(rw, opA, e1, first.c) },
-		func() { vRWOp(rw, opB, e2, first.c) },
-	)
+	if vTier() == 1 {
+		// thorough: three concurrent calls
+		opC := vChoose("opC", 7)
+		vAssume(opB <= opC)
+		vConcurrently(
+			func() { vRWOp(rw, opA, e1, first.c) },
+			func() { vRWOp(rw, opB, e2, first.c) },
+			func() { vRWOp(rw, opC, e1, first.c) },
+		)
+	} else {
+		vConcurrently(
+			func() { vRWOp(rw, opA, e1, first.c) },
+			func() { vRWOp(rw, opB, e2, first.c) },
+		)
+	}
 	vRaceCheck("blockstore")
 	vCover("put-vs-put", opA == 0 && opB == 0)
 	vCover("allkeys-vs-put", opA == 0 && opB == 4)
